@@ -97,6 +97,26 @@ type (
 	namedBytes []byte
 )
 
+// struct shapes that differ only in what they embed or in the visibility of one field
+type EmbPub struct{ V int }
+type embPriv struct{ V int }
+type holdsPub struct {
+	EmbPub
+	N int
+}
+type holdsPriv struct {
+	embPriv
+	N int
+}
+type holdsBlank struct {
+	_ int
+	N int
+}
+type holdsPtrEmb struct {
+	*EmbPub
+	N int
+}
+
 type privateStruct struct {
 	A int
 	b *int
@@ -139,6 +159,7 @@ func awkwardAny() []namedValue {
 		}{"n", []string{"t"}}), nv("[1]any{map}", [1]any{map[string]int{"a": 1}}), nv("struct{any:func}", struct{ F any }{func() {}}), nv("*struct{any:[]int}", &struct{ V any }{[]int{1}}),
 		nv("[2]any{nil,[]any}", [2]any{nil, []any{1}}), nv("struct{error:ptr}", struct{ E error }{&ptrErr{"e"}}), nv("[]any{[]any{map}}", []any{[]any{map[string]any{"k": []int{1}}}}),
 		nv("[]*int{nil}", []*int{nil}), nv("[]func(){f}", []func(){func() {}}), nv("[2]*string{nil,nil}", [2]*string{}), nv("[]any{1,nil}", []any{1, nil}),
+		nv("struct embedding exported", holdsPub{EmbPub{1}, 2}), nv("struct embedding unexported", holdsPriv{embPriv{1}, 2}), nv("struct with blank field", holdsBlank{N: 2}), nv("struct embedding nil pointer", holdsPtrEmb{nil, 2}),
 		nv("Stringer", strer{"str"}), nv("zero Stringer", strer{}), nv("[]string{}", []string{}), nv("LogLevel(0)", stackage.LogLevel(0)),
 	}
 	return out
